@@ -27,7 +27,7 @@ CHECKS = {
  "C04": ("For 18 contexts before `--` (nothing, positional, flag, satisfied option, bare optional-value option of three kinds, slice/map/int-list option with min reached and max not - detached, attached, with one extra value already taken -, an attached value of ANY shape in long and single-dash spelling, command) "
          "and two UNCONSTRAINED tail tokens, in every mode combination, the solver shows Parse succeeds, remaining ends with exactly the tail, no option/Called state "
          "or dispatch target changes because of the tail.",
-         "two tail tokens, one context token group before `--`; the exempted case (`--` as a still-missing mandatory value) is only checked for returning normally; "),
+         "two tail tokens (three in thorough), one context token group or one (thorough: two) unconstrained tokens before `--` (relational harness VerifC04_RawBefore: same state and error-ness with and without the tail); the exempted case (`--` as a still-missing mandatory value) is only checked for returning normally; "),
  "C05": ("Three option names and the typed text are SYMBOLIC strings over [A-Za-z0-9] (pairwise distinct, any length; the third optionally an alias, optionally used after a command token, "
          "long / Normal-short / Bundling one-letter spelling): from the same prefix predicate the solver shows exact names win, a unique prefix acts as the full name with CalledAs = full name, "
          ">=2 candidates without an exact match always give an error listing every candidate with nothing set or called; a second harness resolves the same text at two command levels.",
@@ -44,7 +44,7 @@ CHECKS = {
          "one unknown token among <=3 other tokens; require-order off; "),
  "C09": ("With require-order, for 6 kinds of satisfied option groups before the stop point, 3 kinds of stop token (positional, unknown option with symbolic name, `-`) and two UNCONSTRAINED tail tokens: "
          "remaining is exactly [stop, t1, t2] and all values/Called equal those of a second run of the prefix alone without require-order; a command-name token before the stop still descends.",
-         "two tail tokens, one option group before the stop; "),
+         "two tail tokens (three in thorough), one option group before the stop; relational harness VerifC09_RawBefore: for one (thorough: two) unconstrained tokens in front of a fixed positional and a tail, remaining is a verbatim suffix and the state equals the prefix parsed without require-order; "),
  "C10": ("17 command-line shapes over a 3-level tree (inherited root option, command with child, command without function, UnsetOptions wrapper with own option and child, command-only require-order, optional help command) "
          "with symbolic payloads: exactly one instrumented CommandFn runs (none + error where the command has no function), with the caller's context, the remaining list Parse returned and the parsed own/inherited option values; "
          "a command name as option value, after `--` or after the require-order stop does not select.",
